@@ -116,3 +116,9 @@ check("C20", "exploration", "runtime isolation monitor: enumerating probe script
       "NaN/Infinity/null/undefined/throw are errors, _node equals the live node's present content for record, descendant and ancestor.",
       "Scripts are IIFEs without globals. _node's expected value is idr.JSONify2 of the live node at observation time.",
       "DESIGN.md section 3 C20")
+
+check("C14", "exploration", "Go race detector + cross-talk monitor (concurrent transcripts vs serial twins) with yields injected at real suspension points",
+      "Held on every concurrent job (quick 1.5e4, thorough ~4e5) of arenas with shared Schema objects of all formats (incl. javascript, templates, target filters): "
+      "G in {2,8,32,128} goroutines x GOMAXPROCS in {1,2,4,16}, zero race reports, every transcript byte-identical to its serial twin.",
+      "One Transform per goroutine. The race detector sees only interleavings that occurred (yields injected and goroutine-stamp windows reported).",
+      "DESIGN.md section 3 C14")
